@@ -1,14 +1,25 @@
 import LocustModel.Proto
 import LocustModel.Query.ArithTree
+import LocustModel.Query.ArithPlan
+import LocustModel.Query.Sum
 /-
-  Driver for C06.  Input line:
-    expr <rpn> <ncols> <col0> … <col{n-1}>
-  rpn: comma separated tokens `c<i>` | `k<int>` | `n` (NULL constant) | `+ - * / %`
-  col: comma separated `_` | <int>
-  Output:  <model> TAB <spec>   each `rows:<cells>` | `err:overflow` | `fault:<kind>`
+  Driver for C06.  Input lines (written by harness/src/bin/c06.rs):
+
+    layout <bounds>
+    expr <rpn> <bounds> <ncols> <col0> … <col{n-1}> <implementation output>
+    sum  <rpn> <bounds> <g|-> <ncols> <col0> … <col{n-1}> <implementation output>
+
+  rpn: comma separated tokens `c<i>` | `k<int>` | `n` (NULL literal) | `+ - * / %`
+  bounds: partition boundaries `0,b1,…,n`;  col: comma separated `_` | <int>;  g: index of the grouping column.
+
+  Output:  <implementation model> TAB <specification> [TAB <known finding id>]
+    implementation model   `rows:…` | `err:<kind>` | `panic` | `parts:<k>` | `?` (several outcomes possible / unmodelled)
+    specification          expr: the exact result (`rows:…` | `err:overflow`), `SKIP` for a predicted error VALUE of an
+                           unsupported query shape (notimpl / type / fatal: outside the fragment, DESIGN §4);
+                           sum: `OK` | `BAD <why>` (relation, judged on the implementation output) | `SKIP`
 -/
 namespace LM.DrvC06
-open LM LM.Proto LM.Arith LM.ArithTree
+open LM LM.Proto LM.Arith LM.ArithTree LM.ArithPlan LM.Sum LM.Merge
 
 def parseRpn (toks : List String) : Option Expr :=
   let rec go : List String → List Expr → Option Expr
@@ -30,25 +41,263 @@ def parseRpn (toks : List String) : Option Expr :=
   go toks []
 
 def parseCol (s : String) : Option (List (Option Int)) := parseList (parseOpt parseInt?) s
+def parseBounds (s : String) : Option (List Nat) := parseList parseNat? s
 
 def transpose (cols : List (List (Option Int))) : List Row :=
   match cols with
   | [] => []
   | c :: _ => (List.range c.length).map fun i => cols.map fun col => (col.getD i none)
 
-def showRes : QResult → String
-  | .rows cells => "rows:" ++ showList (showOpt showInt) cells
+/-- Consecutive pairs of the boundary list. -/
+def ranges : List Nat → List (Nat × Nat)
+  | a :: b :: rest => (a, b) :: ranges (b :: rest)
+  | _ => []
+
+/-- The partitions: length and column slices. -/
+def partsOf (bounds : List Nat) (cols : List (List (Option Int))) : List (Nat × (Nat → Option PCol)) :=
+  (ranges bounds).map fun (s, e) =>
+    (e - s, fun i => (cols[i]?).map fun c => ({ cells := (c.drop s).take (e - s) } : PCol))
+
+def showCells (cells : List (Option Int)) : String := showList (showOpt showInt) cells
+
+def showQOut : QOut → String
+  | .rows cells => "rows:" ++ showCells cells
+  | .err e => "err:" ++ e.toString
+  | .fault _ => "panic"
+  | .unknown => "?"
+
+def showSpec : QResult → String
+  | .rows cells => "rows:" ++ showCells cells
   | .overflow => "err:overflow"
   | .fault f => "fault:" ++ toString f
 
+def isShapeErr : QOut → Bool
+  | .err .notimpl | .err .type | .err .fatal => true
+  | _ => false
+
+/-- Classifier of the open finding `select-i64max-null`: the implementation shows NULL exactly where the exact
+    result is i64::MAX (and agrees everywhere else), as the model of `wrap_one` predicts. -/
+def onlyMaxAsNull (spec impl : List (Option Int)) : Bool :=
+  spec.length == impl.length &&
+  (List.zip spec impl).all (fun (s, i) => s == i || (s == some I64_MAX && i == none)) &&
+  (List.zip spec impl).any (fun (s, i) => s == some I64_MAX && i == none)
+
+def stepExpr (rpn : String) (bounds : String) (rest : List String) : String :=
+  match rest.reverse with
+  | impl :: colsRev =>
+    match parseRpn (rpn.splitOn ","), parseBounds bounds, colsRev.reverse.mapM parseCol with
+    | some e, some bs, some cs =>
+        let model := runQuery (partsOf bs cs) e
+        let rows := transpose cs
+        let spec := runSpec e rows
+        let specStr :=
+          if isShapeErr model then "SKIP"
+          else if rows.any (spuriousDiv e) then
+            -- the documented spurious Overflow of `(i64::MIN+1) / -1`: the error and the exact rows are both allowed
+            if impl = "err:overflow" || impl = showSpec spec then "OK" else "BAD expected " ++ showSpec spec ++ " or err:overflow"
+          else showSpec spec
+        let known :=
+          match model, spec with
+          | .rows m, .rows s => if onlyMaxAsNull s m then "\tselect-i64max-null" else ""
+          | _, _ => ""
+        showQOut model ++ "\t" ++ specStr ++ known
+    | _, _, _ => "bad-op\tbad-op"
+  | [] => "bad-op\tbad-op"
+
+-- ------------------------------------------------------------------------------------------------------------
+-- SUM
+
+/-- Group keys: `none` = ungrouped (one group), `some k` = the grouping column's cell. -/
+abbrev Key := Option (Option Int)
+
+structure PartRes where
+  keys : List Key                       -- per row
+  cells : List (Option Int)             -- per row: value of the summed expression
+
+inductive PartOut where
+  | ok (r : PartRes)
+  | err (e : QErr)
+  | fault
+  | unknown
+
+def evalSumPart (e : Expr) (g : Option Nat) (len : Nat) (cols : Nat → Option PCol) : PartOut :=
+  match evalPart len cols e with
+  | .error q => .err q
+  | .ok v =>
+      if v.fatal then .err .fatal
+      else if v.unmodelled then .unknown
+      else if v.fault.isSome then .fault
+      else if v.overflow then .err .overflow
+      else
+        let cells := match v.ty with
+          | .scalar => List.replicate len (v.data.head?)
+          | .null => List.replicate len none
+          | .int _ => (ArithShell.view v.data v.present).take len
+        let keys : List Key := match g with
+          | none => List.replicate len none
+          | some gi => match cols gi with
+            | some c => c.cells.map some
+            | none => List.replicate len (some none)
+        .ok { keys := keys, cells := cells }
+
+def keyLt (a b : Key) : Bool :=
+  match a, b with
+  | some (some x), some (some y) => x < y
+  | some (some _), some none => true
+  | _, _ => false
+
+def insertKey (k : Key) : List Key → List Key
+  | [] => [k]
+  | x :: xs => if k == x then x :: xs else if keyLt k x then k :: x :: xs else x :: insertKey k xs
+
+def allKeys (parts : List PartRes) : List Key :=
+  (parts.flatMap (·.keys)).foldl (fun acc k => insertKey k acc) []
+
+/-- The cells of group `k` in partition `p` (`none` if the partition has no row of the group). -/
+def groupCells (p : PartRes) (k : Key) : Option (List (Option Int)) :=
+  let cs := (List.zip p.keys p.cells).filterMap fun (k', c) => if k' == k then some c else none
+  if (p.keys.any (· == k)) then some cs else none
+
+def showKey : Key → String
+  | none => ""
+  | some none => "_="
+  | some (some k) => toString k ++ "="
+
+inductive SumOut where
+  | rows (r : List (Key × Option Int))
+  | overflow
+  deriving BEq
+
+def showSumOut : SumOut → String
+  | .overflow => "err:overflow"
+  | .rows r => "rows:" ++ showList (fun (k, v) => showKey k ++ showOpt showInt v) r
+
+/-- Result of one bracketing under the implementation model (sentinel and all). -/
+def implOutcome (parts : List PartRes) (keys : List Key) (sh : Shape) : SumOut :=
+  let per := keys.map fun k =>
+    match restrict (fun i => (parts[i]?).bind (groupCells · k)) sh with
+    | none => (k, Except.ok I64_MAX)
+    | some t => (k, evalTree t)
+  if per.any (fun (_, r) => match r with | .error _ => true | .ok _ => false) then .overflow
+  else .rows (per.map fun (k, r) => (k, match r with | .ok v => decodeOut v | .error _ => none))
+
+/-- Does some running or merged sum leave i64 under this bracketing (idealised engine, no sentinel)? -/
+def idealOverflows (parts : List PartRes) (keys : List Key) (sh : Shape) : Bool :=
+  keys.any fun k =>
+    match restrict (fun i => (parts[i]?).bind (groupCells · k)) sh with
+    | none => false
+    | some t => match idealTree t with | .error _ => true | .ok _ => false
+
+/-- Classifier of the open finding `sum-sentinel`: some partial sum (of one partition or of a contiguous range of
+    partitions, for some group) is exactly i64::MAX. -/
+def hasSentinelPartial (parts : List PartRes) (keys : List Key) : Bool :=
+  let n := parts.length
+  keys.any fun k =>
+    (List.range n).any fun i =>
+      (List.range (n - i)).any fun d =>
+        let cells := ((parts.drop i).take (d + 1)).flatMap fun p => (groupCells p k).getD []
+        exactSum cells == some I64_MAX
+
+/-- Parse the implementation's grouped output `rows:<k>=<v>,…`. -/
+def parseGrouped (impl : String) : Option (List (Key × Option Int)) :=
+  if impl.startsWith "rows:" then
+    let body := (impl.drop 5).toString
+    if body = "[]" then some [] else
+    (body.splitOn ",").mapM fun kv =>
+      match kv.splitOn "=" with
+      | [k, v] => do
+          let k' ← parseOpt parseInt? k
+          let v' ← parseOpt parseInt? v
+          pure (some k', v')
+      | _ => none
+  else none
+
+/-- Re-combine rows that carry the same key: exact sum of the non-NULL values, NULL if there is none. -/
+def recombine (rows : List (Key × Option Int)) : List (Key × Option Int) :=
+  let keys := rows.foldl (fun acc (k, _) => insertKey k acc) []
+  keys.map fun k => (k, exactSum ((rows.filter fun (k', _) => k' == k).map (·.2)))
+
+/-- Classifier of the open finding `group-nullkey-duplicate` (C04's subject, seen through grouped SUM): the grouping
+    column has a NULL key in some partition, there are several partitions, the implementation returns some group key
+    more than once, and adding up the rows of equal keys gives exactly the expected result. -/
+def isNullKeyDuplicate (impl : String) (expected : SumOut) (parts : List PartRes) : Bool :=
+  match parseGrouped impl, expected with
+  | some rows, .rows exp =>
+      parts.length ≥ 2 &&
+      parts.any (fun p => p.keys.any (· == some none)) &&
+      rows.length > (recombine rows).length &&
+      recombine rows == exp
+  | _, _ => false
+
+def dedup (xs : List SumOut) : List SumOut :=
+  xs.foldl (fun acc x => if acc.any (· == x) then acc else acc ++ [x]) []
+
+def stepSum (rpn bounds gtok : String) (rest : List String) : String :=
+  match rest.reverse with
+  | impl :: colsRev =>
+      let cols := colsRev.reverse
+      match parseRpn (rpn.splitOn ","), parseBounds bounds, cols.mapM parseCol with
+      | some e, some bs, some cs =>
+          let g : Option Nat := if gtok = "-" then none else gtok.toNat?
+          let pouts := (partsOf bs cs).map fun p => evalSumPart e g p.1 p.2
+          -- errors that depend on the query shape only are raised by every partition while planning
+          let shapeErr := pouts.findSome? fun o => match o with
+            | .err .overflow => none
+            | .err q => some q
+            | _ => none
+          match shapeErr with
+          | some q => "err:" ++ q.toString ++ "\tSKIP"
+          | none =>
+            if pouts.any (fun o => match o with | .unknown => true | _ => false) then "?\tSKIP"
+            else if pouts.any (fun o => match o with | .fault => true | _ => false) then "panic\tBAD model predicts a panic"
+            else
+              -- specification: exact arithmetic per row, exact sum per group
+              let rows := transpose cs
+              let specCells := rows.map fun r => evalRowSpec e r
+              let exprFails := specCells.any (·.isNone)
+              let gkeys : List Key := match g with
+                | none => rows.map fun _ => none
+                | some gi => rows.map fun r => some (r.getD gi none)
+              let whole : PartRes := { keys := gkeys, cells := specCells.map fun c => c.getD none }
+              let keysAll := allKeys [whole]
+              let exact := keysAll.map fun k => (k, exactSum ((groupCells whole k).getD []))
+              let fits := exact.all fun (_, v) => match v with | some x => decide (inI64 x) | none => true
+              let expected : SumOut := if exprFails || !fits then .overflow else .rows exact
+              -- implementation model
+              let exprOverflow := pouts.any (fun o => match o with | .err _ => true | _ => false)
+              let parts := pouts.filterMap fun o => match o with | .ok r => some r | _ => none
+              let keys := allKeys parts
+              let shapes := allShapes (parts.length + 1) 0 parts.length
+              let outcomes := if exprOverflow then [SumOut.overflow] else dedup (shapes.map (implOutcome parts keys))
+              let modelStr := match outcomes with
+                | [o] => showSumOut o
+                | _ => "?"
+              let expStr := showSumOut expected
+              let verdict :=
+                if impl = expStr then "OK"
+                else if impl = "err:overflow" then
+                  -- an error instead of the exact rows: justified only by an intermediate sum outside i64
+                  -- (or by the documented spurious `(i64::MIN+1) / -1` inside the summed expression)
+                  if shapes.any (idealOverflows parts keys) || rows.any (spuriousDiv e) then "OK"
+                  else "BAD spurious overflow; exact " ++ expStr
+                else "BAD expected " ++ expStr
+              let known :=
+                if verdict.startsWith "BAD" && outcomes.any (fun o => showSumOut o = impl) && hasSentinelPartial parts keys
+                then "\tsum-sentinel"
+                else if verdict.startsWith "BAD" && g.isSome && isNullKeyDuplicate impl expected parts
+                then "\tgroup-nullkey-duplicate" else ""
+              modelStr ++ "\t" ++ verdict ++ known
+      | _, _, _ => "bad-op\tbad-op"
+  | [] => "bad-op\tbad-op"
+
 def step (line : String) : String :=
   match splitTokens line with
-  | "expr" :: rpn :: _n :: cols =>
-      match parseRpn (rpn.splitOn ","), cols.mapM parseCol with
-      | some e, some cs =>
-          let rows := transpose cs
-          showRes (runModel e rows) ++ "\t" ++ showRes (runSpec e rows)
-      | _, _ => "bad-op\tbad-op"
+  | ["layout", bounds] =>
+      match parseBounds bounds with
+      | some bs => "parts:" ++ toString (bs.length - 1) ++ "\tSKIP"
+      | none => "bad-op\tbad-op"
+  | "expr" :: rpn :: bounds :: _n :: cols => stepExpr rpn bounds cols
+  | "sum" :: rpn :: bounds :: g :: _n :: rest => stepSum rpn bounds g rest
   | _ => "bad-op\tbad-op"
 
 end LM.DrvC06
